@@ -67,6 +67,7 @@ pub enum HookEv {
 #[derive(Clone, Debug, Default)]
 pub struct ActorView {
     pub spawned: bool,
+    pub spawn_seq: u64,
     pub id: u64,
     pub ty: String,
     pub cap: u32,
@@ -161,7 +162,7 @@ fn collect_msgs<'a>(steps: &'a [Step], out: &mut HashMap<u32, &'a Msg>) {
 
 impl<'a> View<'a> {
     pub fn new(sc: &'a Scenario, evs: &'a [Ev]) -> View<'a> {
-        let n = sc.actors.len();
+        let n = sc.actors.len() + sc.late_spawn as usize;
         let mut v = View {
             sc,
             evs,
@@ -204,6 +205,7 @@ impl<'a> View<'a> {
                 K::Spawned { a, id, ty, cap } => {
                     let av = &mut v.actors[*a];
                     av.spawned = true;
+                    av.spawn_seq = seq;
                     av.id = *id;
                     av.ty = ty.clone();
                     av.cap = *cap;
